@@ -230,6 +230,7 @@ class Ctx:
         gen, dist, depth = self._parse_counts(out)
         res = {"ok": False, "hwm": None, "length": None, "invariant": None, "out": out, "states": dist, "wall_s": dt,
                "state": None}
+        res["viols"] = [(t, int(n)) for t, n in re.findall(r"@@VIOL\s+(\S+)\s+(\d+)", out)]
         m = re.search(r"@@REJECT\s+(\d+)\s+(\d+)", out)
         if m:
             res["hwm"], res["length"] = int(m.group(1)), int(m.group(2))
